@@ -594,6 +594,49 @@ pub fn check_long_runs(ctx: &Ctx, out: &mut Outcome) {
     }
 }
 
+/// C11, thorough tier only: a sample window longer than 2^32 events (the reset must come exactly
+/// when the number of events reaches the sample size, also beyond the 32-bit range)
+pub fn check_c11_long(ctx: &Ctx, out: &mut Outcome) {
+    use caches::lfu::TinyLFU;
+    if ctx.tier != Tier::Thorough || ctx.scale < 1.0 || cfg!(target_pointer_width = "32") {
+        return;
+    }
+    let samples: usize = (1usize << 32) + 8;
+    let r = std::panic::catch_unwind(|| -> Option<String> {
+        let mut t: TinyLFU<u64> = TinyLFU::new(4, samples, 0.999999).ok()?;
+        let h = 0x9E37_79B9_7F4A_7C15u64;
+        for _ in 0..5 {
+            t.increment_hashed_key(h);
+        }
+        for _ in 0..(samples - 5 - 1) {
+            t.try_reset();
+        }
+        if !t.contains_hash(h) {
+            return Some(format!("TinyLFU with samples = 2^32 + 8: after 5 recorded accesses and {} explicit try_reset calls ({} events, one short of the sample size) the doorkeeper no longer contains the recorded hash: a reset came early", samples - 6, samples - 1));
+        }
+        t.try_reset();
+        if t.contains_hash(h) {
+            return Some("TinyLFU with samples = 2^32 + 8: no reset although exactly `samples` events (accesses + try_reset calls) were recorded since construction".to_string());
+        }
+        None
+    });
+    out.coverage.insert("long_window_events".into(), json!(samples as u64));
+    let msg = match r {
+        Ok(m) => m,
+        Err(_) => {
+            let (loc, msg) = crate::inst::take_last_panic().unwrap_or_default();
+            Some(format!("TinyLFU with samples = 2^32 + 8 panicked at {loc}: {msg}"))
+        }
+    };
+    if let Some(msg) = msg {
+        let v = Violation { prop: "C11", step: 0, msg, sig: "tinylfu/-/long-window".into() };
+        if ctx.known.matches(&ctx.id, &v.sig).is_none() {
+            let path = write_replay(&ctx.replay_dir(), &ctx.id, "longwindow", json!({"scenario": "samples = 2^32 + 8"}), &v);
+            out.violations.push((path, v.msg));
+        }
+    }
+}
+
 /// C19 at run time: every `&self` method from several threads at once on a shared cache
 pub fn check_conc(ctx: &Ctx, out: &mut Outcome) {
     let (made, bad) = crate::conc::run_conc(ctx.tier == Tier::Thorough);
@@ -1164,6 +1207,10 @@ pub fn check_putresult_laws(ctx: &Ctx, out: &mut Outcome) {
             let _ = format!("{:?}", a);
             for (b, mb) in vals.iter() {
                 pairs += 1;
+                #[allow(clippy::nonminimal_bool)]
+                if (a != b) == (a == b) {
+                    bad.get_or_insert(format!("{:?} and {:?}: `!=` is {} and `==` is {}", ma, mb, a != b, a == b));
+                }
                 if (a == b) != (ma == mb) || (a == b) != (b == a) {
                     bad.get_or_insert(format!("{:?} == {:?} is {}, structurally it is {}", ma, mb, a == b, ma == mb));
                 }
@@ -1215,8 +1262,8 @@ pub fn check_putresult_laws(ctx: &Ctx, out: &mut Outcome) {
             }
             for (b, mb) in fvals.iter() {
                 pairs += 1;
-                if (a == b) != (ma == mb) {
-                    bad.get_or_insert(format!("{:?} == {:?} is {}, structurally it is {}", ma, mb, a == b, ma == mb));
+                if (a == b) != (ma == mb) || (a != b) == (a == b) {
+                    bad.get_or_insert(format!("{:?} == {:?} is {} (`!=` is {}), structurally it is {}", ma, mb, a == b, a != b, ma == mb));
                 }
             }
         }
